@@ -107,7 +107,7 @@ Section K.
   Definition lag_kernel (params : list T) (states : list T) (inputs : list (list T))
     : option (list (list T) * list T) :=
     match params, inputs with
-    | [timeLag], [inflow] =>
+    | timeLag :: _, inflow :: _ =>
         match lag_fn timeLag inflow states with
         | Some (out, lagged) => Some ([out], lagged)
         | None => None
